@@ -543,14 +543,16 @@ fn run_scenario(rep: &mut Report, sc: &mut Scenario, seed: u64, mode: &str, focu
         (o.deadlock, o.stuck, o.trace_hash, o.steps, o.switches, o.edges)
     } else {
         let o = lockmon::run_jitter(sched_seed, 1 + sc.index % 3, 400, progs);
-        (o.deadlock, o.stuck, sc.index, o.events, 0, BTreeSet::new())
+        (o.deadlock, o.stuck, o.trace_hash, o.events, 0, BTreeSet::new())
     };
     rep.count("CONC", "scheduling_points", steps);
     rep.count("CONC", "context_switches", switches);
     let fn_hash = hash64(&sc.fns.iter().map(|f| f.d.fid as u64).collect::<Vec<_>>());
+    // distinct = (functions, programs, observed interleaving); the scenario number is not part of it
+    let prog_hash = hash_str(&format!("{:?}", sc.progs.iter().map(|p| p.iter().map(op_json).collect::<Vec<_>>()).collect::<Vec<_>>()));
     for p in ["C17", "C18", "C03", "C14", "C15"] {
         if p == focus || focus == "all" {
-            rep.distinct(p, hash64(&[fn_hash, trace_hash, sc.index % 1_000_003]));
+            rep.distinct(p, hash64(&[fn_hash, prog_hash, trace_hash]));
         }
     }
     for (a, b) in &edges {
